@@ -94,7 +94,7 @@ def gen_specs(ctx):
         s = g.top("T", getset_dirs=getset, json_tags=True, generic=0.05, maxfields=4, maxdepth=2, selfembed=0.05, types_extra=newgen.EXTRA_TYPES_JSON, generic_embed=0.1)
         s["typedoc"] = ctx.rng.choice(TYPEDOCS) if getset and ctx.rng.random() < 0.35 else None
         for m in s["members"]:
-            if m["k"] == "e" and getset and ctx.rng.random() < 0.4 and not s["tparams"]:
+            if m["k"] == "e" and m.get("pkg") != "sub" and getset and ctx.rng.random() < 0.4 and not s["tparams"]:
                 m["shoot"] = True
                 for mm in m["decl"]["members"]:
                     if mm["k"] == "f" and not newgen.is_exported(mm["name"]) and mm.get("group") is None and ctx.rng.random() < 0.4:
